@@ -7,7 +7,7 @@ use core::ops::{
 };
 
 /// HighwayHash powered by Wasm SIMD instructions
-#[derive(Debug, Default, Clone)]
+#[derive(Debug, Clone)]
 pub struct WasmHash {
     v0L: V2x64U,
     v0H: V2x64U,
@@ -18,6 +18,12 @@ pub struct WasmHash {
     mul1L: V2x64U,
     mul1H: V2x64U,
     buffer: HashPacket,
+}
+
+impl Default for WasmHash {
+    fn default() -> Self {
+        WasmHash::new(Key::default())
+    }
 }
 
 impl HighwayHash for WasmHash {
